@@ -306,6 +306,10 @@ func (s *State) iteValue(c *Term, a, b Value) Value {
 		if x.object() == y.object() {
 			return &SliceV{Obj: x.Obj, Off: Ite(c, x.Off, y.Off), Len: Ite(c, x.Len, y.Len), Cap: Ite(c, x.Cap, y.Cap), Elem: x.Elem}
 		}
+	case *OpaqueV:
+		if y, ok := b.(*OpaqueV); ok && x.T != nil && y.T != nil && x.T.Sort == y.T.Sort {
+			return &OpaqueV{Kind: x.Kind, T: Ite(c, x.T, y.T)}
+		}
 	case *TupleV:
 		y := b.(*TupleV)
 		n := &TupleV{}
